@@ -298,6 +298,11 @@ func (s *Server) deliver(rsps jmessages, ch sender, elapsed time.Duration) error
 		}
 	}
 
+	if ch == nil {
+		// The server stopped before this batch was dequeued (a retained
+		// notification with a validation error): there is no client to tell.
+		return nil
+	}
 	nw, err := encode(ch, rsps)
 	bytesWrittenCount.Add(int64(nw))
 	return err
